@@ -105,6 +105,15 @@ class Harness:
         w.order = []
         w.last = None
         w.queries = 0
+        # a second model whose environment holds agents with the same ids and components: its answers never change
+        w.m2 = Core.Model(seed=2)
+        w.by = []
+        for key, comps, tag in self.spec[:3]:
+            a = Core.Agent(key, w.m2, tag=1)
+            for t in comps:
+                a.add_component(TYPES[t](a, w.m2))
+            w.m2.environment.add_agent(a)
+            w.by.append(a)
         return w
 
     def ops(self, w):
@@ -135,6 +144,10 @@ class Harness:
         return repr(a)
 
     def check(self, w):
+        e2 = w.m2.environment
+        if e2.get_agents() != w.by or e2.get_agents(tag=1) != w.by or e2.get_agents(tag=0) != [] or \
+                list(e2) != w.by:
+            raise Violation('queries on a second model\'s environment are disturbed by the environment under test')
         env = w.model.environment
         snap = self.cn(w.model, [w.agents[k] for k in self.keys])
         real_rng = w.model.random
